@@ -258,10 +258,7 @@ func readBatchFromIO(data io.ReadCloser, batches chan<- edge.BufferedBatchMessag
 		if err != nil {
 			return err
 		}
-		if len(b.Points()) == 0 {
-			// do nothing
-			continue
-		}
+		// Empty batches are replayed as well, replayBatchFromChan emits them.
 		batches <- b
 	}
 	return nil
